@@ -311,12 +311,16 @@ class Sched:
         self.writes = []        # (thread, kind, bytes) in execution order
         self.main_exc = None
         self.nthreads = {}
+        self.members = {'TM'}   # threads of THIS replay; a worker left over from an earlier (real-threaded) conversion that
+                                # wakes up inside the substituted zfpy is not a participant
 
     def me(self):
         return threading.current_thread().name
 
     def op(self, label, enabled=lambda: True):
         me = self.me()
+        if me not in self.members:
+            raise Abort()
         with self.cv:
             self.parked[me] = (label, enabled)
             self.active -= 1
@@ -394,6 +398,7 @@ def make_patches(S, force_cap):
             self.name = base if S.nthreads[base] == 1 else f'{base}{S.nthreads[base]}'
             self.daemon = False
             self._target, self._args = target, args
+            S.members.add(self.name)
 
         def _run(self):
             try:
